@@ -24,6 +24,66 @@ def check(run):
                 hits.append(("delivery-order-differs", "the backend did not receive the events in the order they were put on the queue"))
         return hits
     propcommon.run_cases(run, cases, oracle, lambda c, r: len(r.get("events") or []) > 30 and c["options"]["nb_threads"] > 1)
+    # API forms the script language of the Coq model does not have, judged by the stream grammar only (no model layer): user
+    # code running INSIDE a `with lcc.prepare_attachment(...)` block (steps changed, logs, checks in it)
+    import copy
+    import sim
+    ctx = engine.gen_cases(run, 40 if run.tier == "quick" else 800, profile=dict(PROFILE, p_spawn=0.1), threads=(1, 2, 3), prefix="ectx")
+
+    def rewrite(script):
+        out, n = [], 0
+        for a in script:
+            if a[0] == "attach" and run.rng.random() < 0.8:
+                inner = [run.rng.choice([["step", 900 + a[1]], ["log", 1, 900 + a[1]], ["check", True, 900 + a[1]], ["url", 900 + a[1]]])
+                         for _ in range(run.rng.randint(1, 3))]
+                out.append(["attach_ctx", a[1], inner])
+                n += 1
+            elif a[0] == "spawn":
+                sub, k = rewrite(a[1])
+                out.append(["spawn", sub])
+                n += k
+            else:
+                out.append(a)
+        return out, n
+
+    def rewrite_project(pd):
+        n = 0
+        def go(s):
+            nonlocal n
+            for t in s["tests"]:
+                t["body"], k = rewrite(t["body"])
+                if k == 0 and run.rng.random() < 0.5:
+                    t["body"] = t["body"] + [["attach_ctx", 990, [["step", 991]]], ["log", 1, 992]]
+                    k = 1
+                n += k
+            hk = s["hooks"]
+            for h in ("teardown_suite", "setup_test", "teardown_test"):
+                if hk.get(h):
+                    hk[h], k = rewrite(hk[h])
+                    n += k
+            if hk.get("setup_suite"):
+                hk["setup_suite"]["script"], k = rewrite(hk["setup_suite"]["script"])
+                n += k
+            for sub in s["subs"]:
+                go(sub)
+        for f in pd["fixtures"]:
+            if f["scope"] != "pre_run":
+                f["setup"], k = rewrite(f["setup"])
+                n += k
+                f["teardown"], k = rewrite(f["teardown"])
+                n += k
+        for s in pd["suites"]:
+            go(s)
+        return n
+    ctx = [c for c in ctx if rewrite_project(c["project"]) > 0]
+    cres = sim.run_cases(ctx)
+    for c in ctx:
+        r = cres.get(c["id"]) or {"outcome": ["hang", "no result"]}
+        run.evaluations += 1
+        run.count("runs_with_code_inside_prepare_attachment")
+        hits = runoracle.c07_oracle(c, r) + runoracle._abnormal_end(r.get("outcome") or ["?"], "the stream is not delivered to its end")
+        for sig, text in hits:
+            run.violation(sig, text, {"case": c, "outcome": r.get("outcome")})
     run.coverage["rule"] = ("seeded random projects with user threads, empty steps and empty setup phases, 1..4 (thorough ..8) threads, "
                             "random/biased schedules; the stream recorded by a backend registered through the public interface is "
                             "checked against the grammar of DESIGN.md A.1; non-trivial = more than 30 events with more than one thread")
